@@ -445,8 +445,8 @@ __CPROVER_assigns(IT_ASSIGNS(iter))
 __CPROVER_ensures(iter->current >= iter->restarts || __CPROVER_pointer_in_range_dfcc(iter->data, iter->value.data, iter->data + iter->restarts))
 __CPROVER_ensures(IT_RI(iter))
 __CPROVER_ensures(IT_INVALID_OUTCOME(iter))
-/* a valid result leaves the status alone */
-__CPROVER_ensures(!(iter->current < iter->restarts) || iter->status == __CPROVER_old(iter->status))
+/* a valid result lies strictly before the entry we came from and leaves the status alone */
+__CPROVER_ensures(!(iter->current < iter->restarts) || (iter->current < __CPROVER_old(iter->current) && iter->status == __CPROVER_old(iter->status)))
 /* no restart point before the entry we came from: invalid ("before the first entry"), nothing latched */
 __CPROVER_ensures(iter->current < iter->restarts || IT_IS_CORRUPT(iter) || iter->status == __CPROVER_old(iter->status))
 ;
@@ -455,6 +455,7 @@ void h_blockiter_prev(void) {
   ASSUME(IT_RI(&it) && in_current < in_restarts);
   ldb_blockiter_prev(&it);
   CHECK(ldb_blockiter_valid(&it) || it.status == LDB_CORRUPTION || it.status == in_status, "prev: invalid only at corruption or before the first entry");
+  CHECK(!ldb_blockiter_valid(&it) || it.current < in_current, "prev: a valid result lies strictly before the entry we came from");
   CANARY();
 }
 
